@@ -102,9 +102,14 @@ type c15Client struct {
 
 	rx    []byte // under world.mu
 	rxErr error  // under world.mu
+	// stalled: the client has stopped reading (its receive window is closed): whatever the mux still writes to
+	// it piles up in the mux's write buffer and then blocks the writer; replies to it are not judged any more
+	stalled bool
+	gate    chan struct{}
 }
 
 type c15World struct {
+	wb           int
 	c            *core.Ctx
 	mu           sync.Mutex
 	mux          *ice.TCPMuxDefault
@@ -153,6 +158,7 @@ func runC15(c *core.Ctx) {
 	}
 	rb := []int{8, 0, 1, 64}[t.Pick([]int{4, 2, 2, 1}, "readbuf")]
 	wb := []int{0, 4 << 20}[t.Pick([]int{3, 1}, "writebuf")]
+	w.wb = wb
 	c.Knob("first", w.first.String())
 	c.Knob("alive", w.alive.String())
 	c.Knob("readbuf", rb)
@@ -462,6 +468,12 @@ func (w *c15World) dial() {
 	go func() {
 		buf := make([]byte, 4096)
 		for {
+			w.mu.Lock()
+			g := cl.gate
+			w.mu.Unlock()
+			if g != nil {
+				<-g
+			}
 			n, err := conn.Read(buf)
 			w.mu.Lock()
 			cl.rx = append(cl.rx, buf[:n]...)
@@ -753,6 +765,18 @@ func (w *c15World) action() {
 		}
 		p := w.payload(fmt.Sprintf("r%d", cl.id), []int{30, 0, 700}[t.Pick([]int{4, 1, 1}, "rlen")])
 		owed := cl.attached == h.pc && !h.pc.closed && !cl.selfClosed
+		if owed && w.wb > 0 && !cl.stalled && t.Bias(1, 6, "client-stalls") {
+			// the client stops reading for good; with a write buffer WriteTo still returns at once, and the
+			// mux's writer for this connection ends up blocked in the socket - until somebody closes it
+			cl.stalled = true
+			w.mu.Lock()
+			cl.gate = make(chan struct{})
+			w.mu.Unlock()
+			c.Defer(func() { close(cl.gate) })
+			cl.conn.SetRecvCap(8)
+			p = w.payload(fmt.Sprintf("r%d", cl.id), 700)
+			c.Fault("client-stops-reading")
+		}
 		var n int
 		var err error
 		done, pv := tsCall(func() { n, err = h.conn.WriteTo(p, cl.addr) })
@@ -764,6 +788,8 @@ func (w *c15World) action() {
 			c.Failf("C15/writeto-blocked", "WriteTo to client %d did not return", cl.id)
 		case owed && err != nil:
 			c.Failf("C15/reply-refused", "WriteTo(%s) on the packet conn of %s returned %v although client %d is attached to it", cl.addr, h.pc.ufrag, err, cl.id)
+		case owed && cl.stalled:
+			c.Probe("reply-to-stalled-client")
 		case owed:
 			cl.replies = append(cl.replies, p)
 			c.Probe("reply-delivered")
@@ -828,8 +854,8 @@ func (w *c15World) serverClosed(cl *c15Client) bool {
 	if !cl.srv.Closed() {
 		return false
 	}
-	if cl.selfClosed {
-		return true
+	if cl.selfClosed || cl.stalled {
+		return true // (a client that has stopped reading does not see the closure either)
 	}
 	w.mu.Lock()
 	defer w.mu.Unlock()
@@ -937,6 +963,9 @@ func (w *c15World) evaluate() {
 			c.Failf("C15/packet-not-delivered", "client %d (%s) wrote %d packets to the conn of %s, which is being read; %d delivered at quiescence (first missing: %q)",
 				cl.id, cl.addr, len(cl.sent), cl.ufrag, cl.delivered, c15Head(cl.sent[cl.delivered]))
 			return
+		}
+		if cl.stalled {
+			continue // it stopped reading in the middle of the stream: what it holds is a prefix, not judged
 		}
 		w.mu.Lock()
 		rx := append([]byte(nil), cl.rx...)
